@@ -338,6 +338,7 @@ pub fn check(ctx: &Ctx, nodes: &[Node], shape: &str) {
         let mut in_macro = false;
         let mut labelled = String::new();
         let mut n_labelled = 0u64;
+        let mut labelled_lines: Vec<usize> = vec![];
         let cond: HashSet<usize> = r.cond_lines.iter().map(|(_, l)| *l).collect();
         for (i, l) in src.lines().enumerate() {
             let t = l.trim_start().to_ascii_lowercase();
@@ -349,6 +350,7 @@ pub fn check(ctx: &Ctx, nodes: &[Node], shape: &str) {
             if !in_macro && is_cond && (i + fw::hash_str(&src) as usize) % 3 != 0 {
                 labelled.push_str(&format!("c08_at_line_{}: ", i + 1));
                 n_labelled += 1;
+                labelled_lines.push(i + 1);
             }
             if t.starts_with(".endm") {
                 in_macro = false;
@@ -364,6 +366,21 @@ pub fn check(ctx: &Ctx, nodes: &[Node], shape: &str) {
                 (Outcome::Ok(a), Outcome::Ok(b)) => a.code == b.code && a.eeprom == b.eeprom && a.messages == b.messages && a.ram_filling == b.ram_filling,
                 _ => false,
             };
+            // a label that stands on a line of an unselected branch exists nowhere: naming it is an error
+            let unsel: HashSet<usize> = r.unselected.iter().map(|(_, l)| *l).collect();
+            if let Some(l) = labelled_lines.iter().find(|l| unsel.contains(l)) {
+                let referencing = format!("{}.cseg\n\t.dw c08_at_line_{}\n", labelled, l);
+                let o = fw::build_str(&referencing);
+                ctx.eval(1);
+                ctx.count("references_to_labels_of_unselected_lines", 1);
+                if !o.is_err() {
+                    ctx.violation(
+                        format!("cond/{}/label-of-unselected-line-exists", sig_shape),
+                        format!("the label in front of unselected line {} can be referenced: {:?}", l, o.kind()),
+                        json!({"source": referencing, "deleted": "this is not assembler\n", "shape": shape, "detail": "label of an unselected line referenced", "observed": o.brief()}),
+                    );
+                }
+            }
             if !same {
                 ctx.violation(
                     format!("cond/{}/labelled-directive-lines", sig_shape),
@@ -495,6 +512,48 @@ fn optional_parameters(ctx: &Ctx, n: u64) {
     });
 }
 
+/// An instruction the selected device lacks, inside unselected branches - at top level, in a macro
+/// body, in the body of a macro called by a macro: it is unselected text like any other. Every device
+/// that lacks something x up to four of the forms it lacks.
+fn device_gated_unselected(ctx: &Ctx) {
+    use crate::refmodel::{devices, isa};
+    let table = devices::table();
+    let forms = isa::forms();
+    fw::par_items(&table, |di, (name, dev)| {
+        let reduced = devices::is_reduced(dev);
+        let lacking: Vec<&isa::Form> = forms
+            .iter()
+            .filter(|f| !((f.core == isa::Core::Reduced && !reduced) || (f.core == isa::Core::Full && reduced)))
+            .filter(|f| devices::forbidding_flag(dev, &f.name).is_some())
+            .collect();
+        let mut rng = Rng::for_case(ctx.seed, 0xC08_D, di as u64);
+        for k in 0..lacking.len().min(4) {
+            let f = lacking[(k * 7 + di) % lacking.len()];
+            let bad = f.text(&f.tuple_at(rng.below(f.space())));
+            let (a, b) = (rng.below(0x10000), rng.below(0x10000));
+            let src = format!(
+                "; C08 device-gated lines in unselected branches\n.device {}\n.macro gated_inner\n.ifdef HAS_IT_{}\n\t{}\n.else\n\t.dw @0\n.endif\n.endm\n.macro gated_outer\n.if 0\n\t{}\n.elif 1\n\tgated_inner @0\n.else\n\t{}\n.endif\n.endm\n\tgated_outer {}\n.if 0\n\t{}\n.endif\n.ifndef HAS_IT_{}\n\t.dw {}\n.else\n\t{}\n.endif\n\tgated_inner {}\n",
+                name, k, bad, bad, bad, a, bad, k, b, bad, a
+            );
+            let mut expect: Vec<u8> = vec![];
+            expect.extend((a as u16).to_le_bytes());
+            expect.extend((b as u16).to_le_bytes());
+            expect.extend((a as u16).to_le_bytes());
+            let out = fw::build_str(&src);
+            ctx.eval(1);
+            ctx.count("device_gated_unselected_programs", 1);
+            ctx.distinct(fw::hash_str(&src));
+            if !matches!(&out, Outcome::Ok(r) if r.code == expect) {
+                ctx.violation(
+                    "cond/device-gated-line-in-unselected-branch",
+                    format!("{}: `{}` stands in unselected branches only: {}", name, bad, fw::clip(&format!("{:?}", out.brief()), 160)),
+                    json!({"source": src, "deleted": src, "shape": "device-gated", "detail": {"expect_code": fw::hex(&expect, 64)}, "observed": out.brief()}),
+                );
+            }
+        }
+    });
+}
+
 fn macro_hosted(ctx: &Ctx, n: u64) {
     fw::par_for(n, 16, |i| {
         let mut rng = Rng::for_case(ctx.seed, 0xC08_A, i);
@@ -589,6 +648,7 @@ pub fn run(ctx: &Ctx) -> i32 {
     });
     macro_hosted(ctx, ctx.tier.pick(1_000u64, 1_000_000u64));
     optional_parameters(ctx, ctx.tier.pick(600u64, 200_000u64));
+    device_gated_unselected(ctx);
     ctx.exhaustive.store(false, std::sync::atomic::Ordering::Relaxed);
     fw::finish(
         ctx,
@@ -605,7 +665,11 @@ pub fn replay(ctx: &Ctx, case: &Value) -> i32 {
     ctx.eval(1);
     ctx.distinct(1);
     ctx.distinct(2);
-    if a != b || !a.is_ok() {
+    if case["detail"].as_str() == Some("label of an unselected line referenced") {
+        if !a.is_err() {
+            ctx.violation("cond/replay", "the label of an unselected line can still be referenced", case.clone());
+        }
+    } else if a != b || !a.is_ok() {
         ctx.violation("cond/replay", format!("full program and program with unselected lines deleted still differ: {:?} vs {:?}", a.kind(), b.kind()), case.clone());
     } else if let (Some(want), Outcome::Ok(r)) = (case["detail"]["expect_code"].as_str(), &a) {
         if fw::hex(&r.code, 4096) != want {
